@@ -112,9 +112,20 @@ def w11_queries_leave_the_text(prog, ctx):
         ctx.ok("W11", "getters do not edit the stored text", "", "%d (getter, input) pairs with an empty Mod set (= C10.Q1)" % n_ok)
 
 
+def w12_merged_objects_are_writable(prog, ctx):
+    """W12: the writer emits a section header whenever the section changes and none for the keys without section - those can only be
+    written where no header precedes them.  A merged object is written correctly only if the merge keeps its group-less keys in front
+    of all sections (= C03.M10)."""
+    from rules import common as _common
+    from rules import C03 as _C03
+    _common.import_obligations(ctx, prog, [_C03.run], "W12", "a merged object can be written as it is: ", keep=lambda ob: ob.rule == "M10",
+                               what="placement of group-less keys by the merge")
+
+
 def run(prog, ctx):
     w8_w9(prog, ctx)
     w11_queries_leave_the_text(prog, ctx)
+    w12_merged_objects_are_writable(prog, ctx)
     f = prog.fn(W)
     ctx.touch(f)
     cfg = f.cfg
@@ -394,6 +405,27 @@ def run(prog, ctx):
         else:
             ctx.fail("W3", "every read records its delimiter", ds[0].where, "the store of the delimiter tag is conditional: an object that already carries a "
                      "tag is written back with a delimiter the file was not read with", key="reader-delimiter-conditional")
+    # an object built by hand is written with the tags its creator (or the tag setters) named - any character, a blank included
+    for fname in ("econf_newKeyFile", "econf_set_delimiter_tag", "econf_set_comment_tag"):
+        if not prog.has_fn(fname):
+            ctx.inconclusive("W3", "%s records the tag it is given" % fname, "", "anchor vanished: %s" % fname)
+            continue
+        nf = prog.fn(fname)
+        ctx.touch(nf)
+        for tag in ("delimiter", "comment"):
+            if tag not in nf.param_names():
+                continue
+            ts = [st for lhs, rhs, st, kind in query.stores(nf) if render(lhs).endswith("->%s" % tag) and rhs is not None]
+            okt = [st for st in ts if st.children[1].strip().k == "DeclRefExpr" and st.children[1].strip().j.get("name") == tag]
+            if ts and len(okt) == len(ts):
+                ctx.ok("W3", "%s records the %s tag it is given" % (fname, tag), ts[0].where, render(ts[0]))
+            elif ts:
+                badt = [st for st in ts if st not in okt][0]
+                ctx.fail("W3", "%s records the %s tag it is given" % (fname, tag), badt.where,
+                         "`%s`: the tag is replaced for some characters (a blank is a legitimate delimiter: `key value` files) - what is written with the "
+                         "substitute does not read back with the delimiter the caller works with" % render(badt)[:90], key="creator-tag:%s:%s" % (fname, tag))
+            else:
+                ctx.fail("W3", "%s records the %s tag it is given" % (fname, tag), nf.where, "the tag is not stored", key="creator-tag:%s:%s" % (fname, tag))
     m = prog.fn("econf_mergeFiles")
     base = m.params[1]["name"]
     for tag in ("delimiter", "comment"):
